@@ -218,9 +218,11 @@ def boAlloc (pre : String) (b : BatchOpeningShape) : List Slot :=
 def boPriv (pre : String) (b : BatchOpeningShape) : List Label :=
   flatMapIdx (fun m n => idx s!"{pre}.m{m}" n) 0 b.opened ++ mmcsPriv pre b.proof
 
-/-- `CommitPhaseProofStepTargets::new`: `(2^log_arity − 1)·D` coefficient targets, then the proof. -/
+/-- `CommitPhaseProofStepTargets::new`: `sibling_values.len()·D` coefficient targets (one group of
+    `EF::DIMENSION` per sibling value the proof carries — the same field `get_private_values`
+    reads; `log_arity` is *not* used to size the allocation since /repo fc0321f), then the proof. -/
 def stepAlloc (D : Nat) (pre : String) (s : StepShape) : List Slot :=
-  allocPriv s!"{pre}.sib" ((2 ^ s.logArity - 1) * D) ++ mmcsAlloc pre s.proof
+  allocPriv s!"{pre}.sib" (s.siblings * D) ++ mmcsAlloc pre s.proof
 
 /-- Coefficients `c = 0..D-1` of sibling `j`, named by their flat position `j·D + c`. -/
 def sibCoeffs (D : Nat) (pre : String) : Nat → Nat → List Label
@@ -303,14 +305,101 @@ def batchPub (E : Nat) (s : BatchShape) : List Label :=
 
 def batchPriv (D : Nat) (s : BatchShape) : List Label := ovsPriv s.ovs ++ pcsPriv D s.pcs
 
-/-! ### Well-formedness (the only place where the two traversals read different fields) -/
+/-! ### Well-formedness of sibling counts
 
-/-- `new` sizes the sibling targets from `log_arity`, `get_private_values` from
-    `sibling_values.len()`. Native `verify_query` rejects any other length. -/
+Not needed for `packed = allocated` any more (both traversals read `sibling_values.len()`); it is
+what the *verifier* requires: `verify_fri_circuit` refuses to build a circuit for any other count
+(`friSibCheck` below), as native `verify_query` rejects any other length. -/
+
+/-- Every commit-phase step carries `2^log_arity − 1` sibling values. -/
 def StepShape.wf (s : StepShape) : Bool := s.siblings == 2 ^ s.logArity - 1
 def QueryShape.wf (q : QueryShape) : Bool := q.steps.all StepShape.wf
 def FriShape.wf (f : FriShape) : Bool := f.queries.all QueryShape.wf
 def PcsShape.wf (p : PcsShape) : Bool := p.fri.wf
+
+/-! ### The build-time shape check of `verify_fri_circuit` on the per-query folding data
+
+Transcription of the loop at the head of `verify_fri_circuit` (`recursion/src/pcs/fri/verifier.rs`)
+that runs *before any constraint is emitted*:
+
+    if let Some(phase) = log_arities.iter().position(|&la| la == 0) { return Err(..) }
+    for (q, query_proof) in query_proofs.iter().enumerate() {
+        if query_proof.commit_phase_openings.len() != num_phases { return Err(..) }
+        for (phase, opening) in query_proof.commit_phase_openings.iter().enumerate() {
+            let expected_log_arity = log_arities[phase];
+            if opening.log_arity != expected_log_arity { return Err(..) }
+            let expected_coeffs = u32::try_from(expected_log_arity).ok()
+                .and_then(|log_arity| 1usize.checked_shl(log_arity))
+                .and_then(|arity| (arity - 1).checked_mul(ef_dim));
+            if expected_coeffs != Some(opening.sibling_coefficients.len()) { return Err(..) }
+        } }
+
+`log_arities` is the schedule of the first query proof (`FriProofTargets::new`);
+`sibling_coefficients.len()` is what `CommitPhaseProofStepTargets::new` allocated: `siblings · D`. -/
+
+/-- `usize::BITS` (64-bit targets). -/
+def usizeBits : Nat := 64
+
+/-- `u32::try_from(la).ok().and_then(|la| 1usize.checked_shl(la)).and_then(|a| (a - 1).checked_mul(D))`:
+    `checked_shl` is `None` exactly for a shift amount `≥ usize::BITS` (and `u32::try_from` cannot
+    fail below that), `checked_mul` is `None` exactly when the product does not fit a `usize`. -/
+def expectedCoeffs (D la : Nat) : Option Nat :=
+  if la < usizeBits then
+    (if (2 ^ la - 1) * D < 2 ^ usizeBits then some ((2 ^ la - 1) * D) else none)
+  else none
+
+/-- Which check of the loop fired (`InvalidProofShape`, no circuit is built). -/
+inductive SibErr
+  /-- `phase k: log_arity must be at least 1` (schedule entry 0) -/
+  | zero (k : Nat)
+  /-- `query q: commit-phase opening count must equal number of phases` -/
+  | count (q : Nat)
+  /-- `query q phase k: log_arity disagrees with global FRI schedule` -/
+  | arity (q k : Nat)
+  /-- `query q phase k: sibling coefficient count must be (2^log_arity - 1) * EF::DIMENSION` -/
+  | siblings (q k : Nat)
+  deriving DecidableEq, Repr
+
+def SibErr.name : SibErr → String
+  | .zero k => s!"zero:{k}"
+  | .count q => s!"count:{q}"
+  | .arity q k => s!"arity:{q}:{k}"
+  | .siblings q k => s!"sib:{q}:{k}"
+
+/-- `log_arities.iter().position(|&la| la == 0)`, from phase index `k`. -/
+def zeroPos : Nat → List Nat → Option Nat
+  | _, [] => none
+  | k, la :: las => if la = 0 then some k else zeroPos (k + 1) las
+
+/-- The inner loop over the openings of query `q`, from phase `k` (the lists have equal length). -/
+def stepsCheck (D q : Nat) : Nat → List Nat → List StepShape → Except SibErr Unit
+  | k, la :: las, st :: sts =>
+    if st.logArity ≠ la then .error (.arity q k)
+    else if expectedCoeffs D la ≠ some (st.siblings * D) then .error (.siblings q k)
+    else stepsCheck D q (k + 1) las sts
+  | _, _, _ => .ok ()
+
+def queryCheck (D : Nat) (sched : List Nat) (q : Nat) (qs : QueryShape) : Except SibErr Unit :=
+  if qs.steps.length ≠ sched.length then .error (.count q) else stepsCheck D q 0 sched qs.steps
+
+def queriesCheck (D : Nat) (sched : List Nat) : Nat → List QueryShape → Except SibErr Unit
+  | _, [] => .ok ()
+  | q, qs :: rest =>
+    match queryCheck D sched q qs with
+    | .error e => .error e
+    | .ok _ => queriesCheck D sched (q + 1) rest
+
+/-- `FriProofTargets::new`: `log_arities` = the `log_arity` sequence of the first query proof. -/
+def FriShape.schedule (f : FriShape) : List Nat :=
+  match f.queries with
+  | [] => []
+  | q :: _ => q.steps.map StepShape.logArity
+
+/-- The whole check for a FRI proof shape with extension degree `D`. -/
+def friSibCheck (D : Nat) (f : FriShape) : Except SibErr Unit :=
+  match zeroPos 0 f.schedule with
+  | some k => .error (.zero k)
+  | none => queriesCheck D f.schedule 0 f.queries
 
 /-! ### What the in-circuit verifier consumes -/
 
@@ -336,6 +425,9 @@ def ovlUses (hasPrep : Bool) (pre : String) (o : OVLShape) : List Label :=
     query's batch openings, salts and sibling coefficients are operands of `verify_fri_circuit`
     (leaf hashes, reduced openings, folds); hiding random openings are merged into the opened
     values (`merge_hiding_random_openings`). -/
+-- `stepUses`: the fold of a phase of log-arity `a` reads `2^a − 1` packed siblings
+-- (`sibling_values_packed`: `chunks_exact(D)` of the coefficient targets, whose number `friSibCheck`
+-- has pinned to `(2^a − 1)·D`), i.e. the coefficient targets `0 … (2^a − 1)·D − 1`.
 def stepUses (D : Nat) (pre : String) (st : StepShape) : List Label :=
   idx s!"{pre}.sib" ((2 ^ st.logArity - 1) * D) ++ mmcsPriv pre st.proof
 
